@@ -65,6 +65,12 @@ class Story:
             for t in orphaned:
                 if t not in fs.daemon.mempool and all(self._unspent(o, new) for o in t.ins):
                     fs.daemon.mempool.append(t)
+        elif kind == 'poll':
+            # the block processor's poll timer expires right now
+            for g in list(fs.sched.pending):
+                if g.kind == 'time' and g.label.startswith('bp.sleep'):
+                    fs.sched.open(g)
+                    break
         elif kind == 'force_reorg':
             fs.bp.force_chain_reorg(ev[1])
         elif kind == 'force_flush':
